@@ -6,7 +6,7 @@
 (* <<property id, predicate name>>.                                         *)
 (***************************************************************************)
 EXTENDS Naturals, Integers, Sequences, FiniteSets, SequencesExt,
-        FiniteSetsExt, Functions, TLC, Text, Vlq, SMap, Sem, Attr, Compose, Rope, EncM, SplitM, ReplaceM
+        FiniteSetsExt, Functions, TLC, Text, Vlq, SMap, Sem, Attr, Compose, Rope, EncM, SplitM, ReplaceM, ConcatM
 
 NREG == 16
 EmptyHeap == [i \in 0..(NREG - 1) |-> Nil]
@@ -225,6 +225,10 @@ LawChecks(r, st) ==
          /\ SharedNamesAgreeInTree(st.heap[r.r]) ->
          {<<"C06", "concat_keeps_child_attribution">>,
           <<"C06", "concat_lines_first_mapped_piece">>}
+         \cup (IF /\ \A x \in {r.r} \cup ToSet(r.children) : <<x, "stream", TRUE, TRUE>> \in DOMAIN st.obs
+                    \* a cached child answers the second call from what the first stored
+                    /\ "cached" \notin Kinds(st.heap[r.r])
+                 THEN {<<"DRIFT", "concat_final_follows_ConcatM">>} ELSE {})
          \cup (IF \E k \in 1..Len(r.children) :
                     LET t == st.heap[r.children[k]]
                     IN IsMapLeaf(t) /\ MapFitsText(LeafMap(t), t.b)
@@ -860,6 +864,19 @@ Holds(c, r, st) ==
                            IN [i \in 1..Len(cs) |-> [x |-> ChunkText(cs[i]), gl |-> cs[i].gl, gc |-> cs[i].gc]]
              model == ReplaceStream(strip(inner.ev), inner.end, Sorted(st.heap[r.r].repls))
          IN model.chunks = strip(mine.ev) /\ model.end = mine.end
+    [] c = <<"DRIFT", "concat_final_follows_ConcatM">> ->
+         LET strip(evs) == LET cs == SelectSeq(evs, IsChunk)
+                           IN [i \in 1..Len(cs) |->
+                                 [gl |-> cs[i].gl, gc |-> cs[i].gc, ni |-> -1,
+                                  si |-> IF cs[i].o = <<>> THEN -1 ELSE 0,
+                                  ol |-> IF cs[i].o = <<>> THEN 0 ELSE cs[i].o[2],
+                                  oc |-> IF cs[i].o = <<>> THEN 0 ELSE cs[i].o[3]]]
+             kid(x) == LET o == st.obs[<<x, "stream", TRUE, TRUE>>]
+                       IN [text |-> <<>>, ev |-> strip(o.ev), end |-> o.end]
+             mine == st.obs[<<r.r, "stream", TRUE, TRUE>>]
+             model == ConcatFinal([k \in 1..Len(r.children) |-> kid(r.children[k])])
+         IN /\ model.out = strip(mine.ev)
+            /\ <<model.lineOff + 1, model.colOff>> = mine.end
     [] c = <<"DRIFT", "schedule_replayed">> ->
          /\ r.outcome = "completed"
          /\ r.schedule_len > 0 => (r.scheduled = r.schedule_len /\ r.extra = 0)
